@@ -269,8 +269,10 @@ def check_property(prop, tier, seed, units, no_kani=False, verbose=False):
         'wall_s': round(wall, 2),
         'violations': vcount,
     }
-    os.makedirs(os.path.join(ROOT, 'evidence'), exist_ok=True)
-    json.dump(ev, open(os.path.join(ROOT, 'evidence', prop + '.json'), 'w'), indent=1)
+    # development runs against a scratch copy (VERIF_REPO set) must not overwrite the evidence of /repo
+    evdir = 'evidence' if vx.REPO == '/repo' else 'evidence_dev'
+    os.makedirs(os.path.join(ROOT, evdir), exist_ok=True)
+    json.dump(ev, open(os.path.join(ROOT, evdir, prop + '.json'), 'w'), indent=1)
     for l in lines:
         print(l)
     print('%s: %d obligations, %d discharged, %d violations, %d known findings, %d vacuity probes, %.1fs%s' % (
